@@ -16,7 +16,7 @@ SPEC = {
              "kind x probes, plus random histories over <= 3 keys; (red) the same call grammar on redis.Storage over miniredis "
              "(FastForward) restricted to the repositories' key shapes; (sched) every interleaving of 2-3 callers x 2 calls forced by a "
              "gated double; (conc) free-running callers released by one flag, hundreds of rounds per case, one line per distinct "
-             "outcome, checked for linearizability by the Lean spec; (hammer) reader/writer stress in a child process; (sweep) the real sweep vs concurrent re-writes of expired keys; (burst) exhaustive 2 callers x 1 call (11 writers incl. SetNX/CAS/Incr/Append/SetHash/CleanupExpired x writers+readers) on one key that is absent / live / permanent / expired-unswept of every value kind, plus 3-caller and random bursts. "
+             "outcome, checked for linearizability by the Lean spec; (hammer) reader/writer stress in a child process; (sweep) the real sweep vs concurrent re-writes of expired keys; (alias) exhaustive setup x sharing x mutation x probe plus random histories with held answers; (burst) exhaustive 2 callers x 1 call (11 writers incl. SetNX/CAS/Incr/Append/SetHash/CleanupExpired x writers+readers) on one key that is absent / live / permanent / expired-unswept of every value kind, plus 3-caller and random bursts. "
              "non-trivial = more than one call; distinct = distinct case line"),
     "trusted_base": [
         "Lean 4.33 kernel; axioms propext, Classical.choice, Quot.sound only (audited per theorem on every run)",
@@ -32,6 +32,7 @@ SPEC = {
         "one critical section per method is a HYPOTHESIS of C13_linearizable (atomicCalls), discharged from the extracted skeletons by atomic_calls / section_counts (number of Lock/RLock regions per method pinned; a second region must re-check expiry before delete); a sweep split into scan + delete phase is covered by C13_sweep_split_invisible only if the delete phase re-checks (sweep_blind_witness for the unchecked variant)",
         "sweep cases: real CleanupExpired (loop) / StartCleanup ticker against concurrent re-writes of thousands of expired keys; per key the history set-sleep-rewrite-reads is sequential (no Delete issued), the reported key history is judged by holdsSeq",
         "burst cases: sequential prefix (real sleeps: 2 ms lifetimes + 6 ms sleep leave expired-but-unswept entries; live keys use 1 h / permanent), then free-running callers on 16 independent stores x 2 rounds (thorough 12), then a sequential probe; judged by holdsBurst = C13_linearizable_from's predicate (order search from the prefix's end state + probe); no `get` inside a burst (known finding get-returns-live-hash)",
+        "alias cases: the caller keeps GetList answers without copying (registers), looks at them again and stores them again under other keys; judged by holdsAlias (value semantics); the reference-semantics model (Model/C13Alias.lean: slices, backing arrays, in-place append into spare capacity, runtime-chosen capacities as parameters) is proved to refine it for every history (C13_alias_refines); callers never write through a held slice themselves; Set(k, []any) by a caller (not via SetList) still stores by reference and is outside the driven shapes",
         "linearizability theorem: one burst at a fixed clock reading from the empty store; schedules that let every caller finish (`completes`)",
         "mem timing: a burst of calls between two sleeps must finish within 25 ms (measured; the case is rerun otherwise); model clock: 1 ns per call",
         "Redis half restricted to the operations and shapes the repositories use: kv keys hold non-empty strings; list/hash members are strings; lists are built by append/SetList(ttl 0|1h); lifetimes are 0 or whole seconds; answers compared through repoView (missing list = empty list, missing hash = empty hash, SetExpiration on a missing key = ok); Exists/GetExpiration only on kv keys",
